@@ -582,7 +582,7 @@ def _run(ctx, rng, quick, nmax, threads_set, impl):
         # ---- closeness, approximate (sources replayed from the seeded global generator)
         if n >= 3:
             tol = rng.choice([0.1, 0.1, 0.5, 1.0])
-            if min(int(math.log(n) / tol ** 2), n) >= 1:
+            if min(int(math.log(n) / tol ** 2), n) >= 2:    # one source: its own estimate divides by a zero distance sum
                 approx.append((fam, n, ent, m, sym, tol, rng.randrange(10 ** 6), truth))
         # ---- betweenness
         res = impl(1).call('c04', 'betweenness', dict(m=m))
